@@ -261,7 +261,7 @@ impl<'a, 'c> Walk<'a, 'c> {
             ("last", b(is_last)),
             (
                 "ovh",
-                crate::matches::verif_local_braces::pat_shape_overhead(body).to_string(),
+                crate::matches::verif_local_braces::pat_shape_overhead(context, body).to_string(),
             ),
             ("flatn", flat(&p.flat_none)),
             ("flats", flat(&p.flat_some)),
